@@ -27,6 +27,7 @@ RULE = ('Hypothesis rule-based state machine: histories of 2-25 filter calls in 
         'rules: call(any entry), pair(k) = producer k then consumer k, repeat(last call). invariant: result == result of the same call as first call of a fresh process. '
         'second machine: request sequences to one --as-server process compared with fresh servers. '
         'non-trivial = history in which a producer precedes its consumer; distinct by the sequence of pool indices')
+RULE += ' Additions: pool pairs that rewrite an included file (glossary definitions, cleveref sed file) under the same name between two calls.'
 ASSUMPTIONS = [
     'the documents read scratch files (glossary data base, sed file, definitions) that do not change during a history',
     'a result is the returned value plus the diagnostics written to stderr',
